@@ -14,6 +14,7 @@
     `inert v`: none satisfies `recognised`.
 -/
 import BklProofs.Lemmas.EscapeProc
+import BklProofs.Lemmas.C06Layered
 namespace Bkl
 
 /-! ## 1. unescaping undoes doubling -/
@@ -189,5 +190,184 @@ example : doubleStr "a$b$$" = "a$$b$$$$" := by decide
 example : process1 1 [] .null none (.list [.int 1]) = .error .circularRef := by rfl
 example : process1 2 [] .null none (.list [.int 1]) = .ok (.list [.int 1], .null) := by rfl
 example : process2 1 [] .null [] (.list [.int 1]) = .error .circularRef := by rfl
+
+/-! ## 9. doubled data layered over other documents
+
+  Definitions (BklProofs/Lemmas/C06Layered.lean):
+  * `plainMerge dst src` / `plainMergeFields` — the *directive-free structural merge*: `merge`
+    (Bkl/Merge.lean) with every directive switched off.  Maps merge key by key (a new key is
+    inserted, an existing key is merged recursively), lists concatenate (`d ++ s`, nothing is
+    stripped), a null child keeps the parent, a null parent is replaced, a scalar parent is
+    replaced (an identical child is `uselessOverride`), a scalar / list over a non-empty map and
+    a scalar / map over a list are `invalidType`.  In particular the strings `"$delete"`,
+    `"$replace"`, `"$required"` and the keys `$replace`, `$match`, `$value`, `$delete` in the
+    child are DATA: `plainMerge {a: 1} {a: "$delete"} = {a: "$delete"}`.
+  * `plainChain` — `plainMerge` folded over a chain of layers, base first (as `mergeChain`).
+  * `noDollar v` — no map key and no string leaf of `v` contains a `$`
+    (`noDollar v → inert v`, and `double v = v`).
+  * `plainOutputs r` — `[]` for the null document, else `[dropNulls r]`. -/
+
+/-- **doubling commutes with merge** (no hypothesis): for the doubled child no directive is
+    recognised, so merging doubled data is the directive-free merge of the data, doubled —
+    same success, same error. -/
+theorem C06_merge_double (a b : Val) :
+    merge (double a) (double b) = Except.map double (plainMerge a b) :=
+  l_merge_double a b
+
+/-- the same for a whole chain of doubled layers -/
+theorem C06_mergeChain_double (vs : List Val) :
+    mergeChain (doubleList vs) = Except.map double (plainChain vs) :=
+  l_mergeChain_double vs
+
+/-- `plainMerge` is not a new operation: on `$`-free data it IS `merge`. -/
+theorem C06_plainMerge_is_merge (a b : Val) (ha : noDollar a = true)
+    (hb : noDollar b = true) : merge a b = plainMerge a b :=
+  l_merge_eq_plainMerge_free ha hb
+
+/-- `$`-free data is inert, and doubling leaves it alone -/
+theorem C06_noDollar (p : Val) (hp : noDollar p = true) : inert p = true ∧ double p = p :=
+  ⟨l_free_inert hp, l_double_free hp⟩
+
+/-- merge level: a doubled child over a `$`-free parent -/
+theorem C06_layered_merge (p v : Val) (hp : noDollar p = true) :
+    mergeChain [p, double v] = Except.map double (plainMerge p v) := by
+  have h := l_merge_double p v
+  rw [l_double_free hp] at h
+  rw [l_mergeChain_pair, h]
+
+/-- **C06, layered**: evaluating the chain `[p, double v]` (merge, then the pipeline of
+    `C06_escape`) gives exactly the plain structural merge of `p` and the *undoubled* `v`, nulls
+    dropped: success with `dropNulls (plainMerge p v)` exactly when `plainMerge p v` succeeds,
+    the same error exactly where it fails. -/
+theorem C06_layered (docs : List Val) (env : Vars) (p v : Val)
+    (hp : noDollar p = true) (hpw : p.WF) (hvw : v.WF)
+    (hpd : depth p < depthLimit) (hvd : depth v < depthLimit) :
+    (mergeChain [p, double v] >>= outputDocument docs env) =
+      Except.map plainOutputs (plainMerge p v) := by
+  rw [C06_layered_merge p v hp]
+  cases hm : plainMerge p v with
+  | error e => rfl
+  | ok r =>
+    show outputDocument docs env (double r) = .ok (plainOutputs r)
+    have hrw : r.WF := l_plainMerge_wf hpw hvw hm
+    have hrd : depth r < depthLimit := by
+      have := l_plainMerge_depth hm
+      omega
+    unfold plainOutputs
+    by_cases hn : r = .null
+    · subst hn; exact C06_escape_null docs env
+    · have hnn : r.isNull = false := by cases r <;> simp_all [Val.isNull]
+      rw [hnn]
+      exact C06_escape docs env r hrw hrd (by rw [Ne, dropNulls_eq_null_iff]; exact hn)
+
+/-- the two halves of `C06_layered`, spelled out -/
+theorem C06_layered_ok (docs : List Val) (env : Vars) (p v r : Val)
+    (hp : noDollar p = true) (hpw : p.WF) (hvw : v.WF)
+    (hpd : depth p < depthLimit) (hvd : depth v < depthLimit) (hm : plainMerge p v = .ok r) :
+    mergeChain [p, double v] = .ok (double r) ∧
+    (mergeChain [p, double v] >>= outputDocument docs env) = .ok (plainOutputs r) := by
+  refine ⟨by rw [C06_layered_merge p v hp, hm]; rfl, ?_⟩
+  rw [C06_layered docs env p v hp hpw hvw hpd hvd, hm]; rfl
+
+theorem C06_layered_error (docs : List Val) (env : Vars) (p v : Val) (e : Err)
+    (hp : noDollar p = true) (hm : plainMerge p v = .error e) :
+    mergeChain [p, double v] = .error e ∧
+    (mergeChain [p, double v] >>= outputDocument docs env) = .error e := by
+  rw [C06_layered_merge p v hp, hm]; exact ⟨rfl, rfl⟩
+
+/-- for two maps the merged document is a map, so exactly one document is printed -/
+theorem C06_layered_map (docs : List Val) (env : Vars) (p v : Fields)
+    (hp : noDollar (.map p) = true) (hpw : (Val.map p).WF) (hvw : (Val.map v).WF)
+    (hpd : depth (.map p) < depthLimit) (hvd : depth (.map v) < depthLimit) :
+    (mergeChain [.map p, double (.map v)] >>= outputDocument docs env) =
+      Except.map (fun r => [dropNulls r]) (plainMerge (.map p) (.map v)) := by
+  rw [C06_layered docs env _ _ hp hpw hvw hpd hvd, l_pm_map_map]
+  cases plainMergeFields p v <;> rfl
+
+/-- The parent must really be `$`-free; *inert* (not recognised by the evaluator, no `$$`) is
+    not enough.  (1) An inert parent string with a `$` is no longer equal to the doubled child
+    string, so a `uselessOverride` of the plain merge is lost.  (2) An inert parent key with a
+    `$` and its doubled twin are different keys for `merge` but the same key after `$$` is
+    unescaped: the override by the upper layer is lost. -/
+theorem C06_layered_inert_counterexample :
+    (let p : Val := .map [("a", .str "$5")]
+     inert p = true ∧ p.WF ∧ noDollar p = false ∧
+     plainMerge p p = .error .uselessOverride ∧
+     (mergeChain [p, double p] >>= outputDocument [] []) = .ok [p]) ∧
+    (let p : Val := .map [("$X", .int 1)]
+     let v : Val := .map [("$X", .int 2)]
+     inert p = true ∧ p.WF ∧ v.WF ∧ noDollar p = false ∧
+     plainMerge p v = .ok v ∧
+     (mergeChain [p, double v] >>= outputDocument [] []) = .ok [p]) := by
+  constructor
+  · refine ⟨by decide, by decide, by decide, by rfl, ?_⟩
+    have hd : double (.map [("a", .str "$5")]) = .map [("a", .str "$$5")] := by decide
+    have hm : mergeChain [.map [("a", .str "$5")], .map [("a", .str "$$5")]]
+        = .ok (.map [("a", .str "$$5")]) := by
+      rw [l_mergeChain_pair]
+      simp [merge, mergeMapMap, mergeFields, fhasBool, fget, fset, Val.toStr]
+      rfl
+    rw [hd, hm, ← hd]
+    exact C06_escape [] [] (.map [("a", .str "$5")]) (by decide) (by decide) (by decide)
+  · refine ⟨by decide, by decide, by decide, by decide, by rfl, ?_⟩
+    have hd : double (.map [("$X", .int 2)]) = .map [("$$X", .int 2)] := by decide
+    have hm : mergeChain [.map [("$X", .int 1)], .map [("$$X", .int 2)]]
+        = .ok (.map [("$$X", .int 2), ("$X", .int 1)]) := by
+      rw [l_mergeChain_pair]
+      simp [merge, mergeMapMap, mergeFields, fhasBool, fget, fset, Val.toStr]
+      rfl
+    rw [hd, hm]
+    show outputDocument [] [] (.map [("$$X", .int 2), ("$X", .int 1)]) = _
+    rw [e_outputDocument_plain [] [] _ (by decide) (by decide) (by decide) (by decide)]
+    rfl
+
+/-! ### non-vacuity for section 9 -/
+
+/-- a `$`-free parent -/
+def c06_par : Val :=
+  .map [("a", .int 1), ("k", .map [("x", .str "old"), ("y", .null)]), ("l", .list [.int 1])]
+
+/-- a child full of strings that `merge` would take for directives -/
+def c06_child : Val :=
+  .map [("$match", .int 7), ("a", .str "$delete"),
+        ("k", .map [("$replace", .bool true), ("x", .str "$required")]),
+        ("l", .list [.str "$replace", .map [("$delete", .int 1)]])]
+
+example : noDollar c06_par = true ∧ c06_par.WF ∧ c06_child.WF ∧
+    depth c06_par < depthLimit ∧ depth c06_child < depthLimit := by decide
+
+/-- every "directive" of the child arrives as data; `y: null` of the parent is dropped -/
+example : (mergeChain [c06_par, double c06_child] >>= outputDocument [] []) =
+    .ok [.map [("$match", .int 7), ("a", .str "$delete"),
+        ("k", .map [("$replace", .bool true), ("x", .str "$required")]),
+        ("l", .list [.int 1, .str "$replace", .map [("$delete", .int 1)]])]] := by
+  rw [C06_layered [] [] c06_par c06_child (by decide) (by decide) (by decide) (by decide)
+    (by decide)]
+  rfl
+
+/-- whereas the undoubled child is full of directives: `a` is deleted, `k` and `l` replaced -/
+example : merge c06_par c06_child ≠ plainMerge c06_par c06_child := by
+  have hm : merge c06_par c06_child = .ok (.map [("$match", .int 7),
+      ("k", .map [("x", .str "$required")]), ("l", .list [.map [("$delete", .int 1)]])]) := by
+    simp [c06_par, c06_child, merge, mergeMapMap, mergeFields, fhasBool, fget, fset, fdel, fhas,
+      Val.toStr, mergeListList, popListString]
+    rfl
+  have hp : plainMerge c06_par c06_child = .ok (.map [("$match", .int 7), ("a", .str "$delete"),
+      ("k", .map [("$replace", .bool true), ("x", .str "$required"), ("y", .null)]),
+      ("l", .list [.int 1, .str "$replace", .map [("$delete", .int 1)]])]) := by rfl
+  rw [hm, hp]
+  intro h
+  exact absurd (Except.ok.inj h) (by decide)
+
+/-- an error of the plain merge is the error of the layered evaluation -/
+example : plainMerge c06_par (.map [("l", .int 3)]) = .error .invalidType ∧
+    (mergeChain [c06_par, double (.map [("l", .int 3)])] >>= outputDocument [] [])
+      = .error .invalidType :=
+  ⟨by rfl, (C06_layered_error [] [] c06_par _ _ (by decide) (by rfl)).2⟩
+
+example : noDollar c06_par = true ∧ noDollar (.map [("a", .str "x")]) = true ∧
+    merge c06_par (.map [("a", .str "x")]) = plainMerge c06_par (.map [("a", .str "x")]) :=
+  ⟨by decide, by decide, C06_plainMerge_is_merge _ _ (by decide) (by decide)⟩
+
 
 end Bkl
